@@ -106,8 +106,7 @@ hwloc_shmem_topology_write(hwloc_topology_t topology,
   header.mmap_address = (uintptr_t) mmap_address;
   header.mmap_length = length;
 
-  err = lseek(fd, fileoffset, SEEK_SET);
-  if (err < 0)
+  if (lseek(fd, fileoffset, SEEK_SET) == (off_t) -1)
     return -1;
 
   err = write(fd, &header, sizeof(header));
@@ -165,8 +164,7 @@ hwloc_shmem_topology_adopt(hwloc_topology_t *topologyp,
     return -1;
   }
 
-  err = lseek(fd, fileoffset, SEEK_SET);
-  if (err < 0)
+  if (lseek(fd, fileoffset, SEEK_SET) == (off_t) -1)
     return -1;
 
   err = read(fd, &header, sizeof(header));
